@@ -141,6 +141,9 @@ type HarnessSpec struct {
 	Deadline time.Duration
 	HuntMode bool
 	MapOrder string // "", or "rotate:<k>:<r>" (k-th range statement rotated by r)
+	// Stubs: callee (full name) -> harness function in the same package that
+	// replaces it (same signature); every use is listed in evidence.
+	Stubs map[string]string
 	// MaxViolations stops the exploration once that many violations were
 	// found (the run is then not exhaustive). 0 = 40.
 	MaxViolations int
@@ -177,6 +180,7 @@ func (e *Engine) newInterp(stats *SolverStats, spec *HarnessSpec) *interpreter {
 		funcsEntered: map[*ssa.Function]int{},
 	}
 	i.st.HuntMode = spec.HuntMode
+	i.solver.IntLattice = spec.Cfg.IntLattice
 	if i.cfg.MaxPicks == 0 {
 		i.cfg.MaxPicks = 64
 	}
@@ -201,6 +205,15 @@ func (e *Engine) newInterp(stats *SolverStats, spec *HarnessSpec) *interpreter {
 		}
 	}
 	i.initFilter = func(p *ssa.Package) bool { return e.InitPkgs[p.Pkg.Path()] }
+	if len(spec.Stubs) > 0 {
+		i.stubs = map[string]value{}
+		pkg := e.Package(spec.Pkg)
+		for callee, repl := range spec.Stubs {
+			if f := pkg.Func(repl); f != nil {
+				i.stubs[callee] = f
+			}
+		}
+	}
 	return i
 }
 
